@@ -85,6 +85,17 @@ def export_term(t):
         res = res[0]
     return res
 
+def term_types(t):
+    """Types of the variables, constants and abstractions in the term."""
+    if t.is_svar() or t.is_var() or t.is_const():
+        return [t.T]
+    elif t.is_comb():
+        return term_types(t.fun) + term_types(t.arg)
+    elif t.is_abs():
+        return [t.var_T] + term_types(t.body)
+    else:
+        return []
+
 def display_raw(s):
     """Display unparsed type or term."""
     if isinstance(s, str):
@@ -339,6 +350,8 @@ class Definition(Item):
             f, args = self.prop.lhs.strip_comb()
             if f != Const(self.name, self.type):
                 raise ItemException("Definition %s: wrong head of lhs" % self.name)
+            if not all(v.is_var() for v in args):
+                raise ItemException("Definition %s: arguments on lhs must be variables" % self.name)
             lhs_vars = set(v.name for v in args)
             rhs_vars = set(v.name for v in self.prop.rhs.get_vars())
             if len(lhs_vars) != len(args):
@@ -347,6 +360,27 @@ class Definition(Item):
                 raise ItemException(
                     "Definition %s: extra variables in rhs: %s" % (
                         self.name, ", ".join(v for v in rhs_vars - lhs_vars)))
+
+            # The remaining conditions make sure the definition is conservative:
+            # variables on the rhs agree with those on the lhs also in type, there
+            # are no schematic variables, every type variable on the rhs appears
+            # in the type of the constant, and the constant being defined does not
+            # appear on the rhs (except at a type with no common instance).
+            if not set(self.prop.rhs.get_vars()).issubset(set(args)):
+                raise ItemException("Definition %s: variables in rhs differ in type from lhs" % self.name)
+            prop_types = term_types(self.prop)
+            if self.prop.get_svars() or any(T.get_stvars() for T in prop_types + [self.type]):
+                raise ItemException("Definition %s: schematic variables are not allowed" % self.name)
+            type_tvars = self.type.get_tvars()
+            extra_tvars = [T for rhsT in term_types(self.prop.rhs)
+                           for T in rhsT.get_tvars() if T not in type_tvars]
+            if extra_tvars:
+                raise ItemException(
+                    "Definition %s: extra type variables in rhs: %s" % (
+                        self.name, ", ".join(sorted(set(str(T) for T in extra_tvars)))))
+            for c in self.prop.rhs.get_consts():
+                if c.name == self.name and not c.T.is_apart(self.type):
+                    raise ItemException("Definition %s: constant occurs in rhs" % self.name)
 
         except Exception as error:
             self.type = data['type']
